@@ -253,7 +253,12 @@ func TestVerifC12TLS13(t *testing.T) {
 		src := vfGenTLS13Src(rt)
 		sni := vfGenDNSName(rt, "sni")
 		st.Eval()
-		p, err := vfPrepareClient(src, sni, rapid.Uint64().Draw(rt, "randseed"), nil)
+		// Config.NextProtos is an application-level wish list; what counts is the ALPN extension on the wire
+		var nextProtos []string
+		if rapid.Bool().Draw(rt, "cfgnextprotos") {
+			nextProtos = [][]string{{"h2"}, {"h2", "http/1.1"}, {"vf-proto"}}[rapid.IntRange(0, 2).Draw(rt, "cfgnextprotosv")]
+		}
+		p, err := vfPrepareClient(src, sni, rapid.Uint64().Draw(rt, "randseed"), func(c *Config) { c.NextProtos = nextProtos })
 		if err != nil {
 			st.Violation(rt, "%s: %v", src, err)
 		}
